@@ -172,6 +172,7 @@ class LSim(cluster.Sim):
                         self.expired_while_held = True
                     if ex is None or ex[0] == client:
                         t[lock] = (client, now)
+                        self.lock_cmds.append(('acquired', lock, client, now, p))
                 elif name == 'prolongate':
                     client, now = args
                     for lock in list(t):
@@ -183,7 +184,7 @@ class LSim(cluster.Sim):
                             t[lock] = (client, now)
                 elif name == 'release':
                     lock, client = args
-                    self.lock_cmds.append(('release', lock, client))
+                    self.lock_cmds.append(('release', lock, client, None, p))
                     ex = t.get(lock)
                     if ex is not None and ex[0] == client:
                         del t[lock]
@@ -285,6 +286,7 @@ def run_case(case):
         if not viol and not sim.viol:
             sim.blocked = set()
             quiet = 0
+            sim.quiet_config()
             for _ in range(600):
                 sim.calm_round()
                 sim.check(light=True)
@@ -306,7 +308,8 @@ def run_case(case):
                     if late and not later_try and sim.table.get(rec['lock'], (None,))[0] == rec['client']:
                         held_since = sim.table[rec['lock']][1]
                         if held_since == rec['t']:
-                            rel_committed = any(k == ('release', rec['lock'], rec['client']) for k in sim.lock_cmds)
+                            pa = [k[4] for k in sim.lock_cmds if k[:4] == ('acquired', rec['lock'], rec['client'], rec['t'])]
+                            rel_committed = bool(pa) and any(k[0] == 'release' and k[1] == rec['lock'] and k[2] == rec['client'] and k[4] > max(pa) for k in sim.lock_cmds)
                             V('late-failed-client-keeps-lock' + ('' if rel_committed else ':release-never-committed'), '%s was told its tryAcquire(%s) failed (answer %.2f s after the attempt) but the lock table still names it holder: %r' % (
                                 rec['client'], rec['lock'], late[0][2] - rec['t'], sim.table))
             # obtainability: holder stops prolonging -> another client obtains the lock after the auto-unlock time
